@@ -196,17 +196,13 @@ func (d *Decoder) readTypedMap() (interface{}, error) {
 			return nil, err
 		}
 
-		//nil map
-		if key == nil {
-			break
-		}
-
+		// a null key is a value (the empty string), not the end of the map
 		value, err := d.ReadData()
 		if err != nil {
 			return nil, err
 		}
 		if mType.Kind() == reflect.Map {
-			mValue.SetMapIndex(EnsureRawValue(key), EnsureRawValue(value))
+			mValue.SetMapIndex(convertTo(mType.Key(), key), convertTo(mType.Elem(), value))
 		} else {
 			fieldName, ok := key.(string)
 			if !ok {
@@ -214,7 +210,7 @@ func (d *Decoder) readTypedMap() (interface{}, error) {
 			}
 			fieldValue := mValue.FieldByName(fieldName)
 			if fieldValue.IsValid() {
-				fieldValue.Set(EnsureRawValue(value))
+				SetValue(fieldValue, EnsureRawValue(value))
 			}
 		}
 	}
@@ -239,11 +235,7 @@ func (d *Decoder) readUntypedMap() (interface{}, error) {
 			return nil, err
 		}
 
-		// nil map
-		if key == nil {
-			break
-		}
-
+		// a null key is a value, not the end of the map
 		value, err := EnsureInterface(d.ReadData())
 		if err != nil {
 			return nil, err
@@ -298,15 +290,12 @@ func (d *Decoder) readMap(dest reflect.Value) error {
 			}
 		}
 
-		if key == nil {
-			break
-		}
-
+		// a null key is a value (the empty string), not the end of the map
 		vl, err := d.ReadData()
 		if err != nil {
 			return err
 		}
-		mPtrValue.Elem().SetMapIndex(EnsureRawValue(key), EnsureRawValue(vl))
+		mPtrValue.Elem().SetMapIndex(convertTo(mapTyp.Key(), key), convertTo(mapTyp.Elem(), vl))
 	}
 	SetValue(dest, mPtrValue)
 	return nil
